@@ -87,6 +87,8 @@ def finite_instance_check(smt2, n=3, timeout_ms=20000):
             s.add(ex(a))
     except RecursionError:
         return "unknown", time.time() - t, ""
+    for side in _SIDE.pop(id(ctx), []):
+        s.add(side)
     r = s.check()
     model = ""
     if r == z3.sat:
@@ -95,6 +97,7 @@ def finite_instance_check(smt2, n=3, timeout_ms=20000):
 
 
 _GROUND = {}
+_SIDE = {}
 
 
 def _has_var(e):
@@ -108,7 +111,7 @@ def _has_var(e):
 def _expand_ctx(e, dom, cache, ctx):
     k = e.get_id()
     if k in cache:
-        return cache[k]
+        return cache[k][1]
     if z3.is_quantifier(e):
         n = e.num_vars()
         sorts = [e.var_sort(i) for i in range(n)]
@@ -138,12 +141,20 @@ def _expand_ctx(e, dom, cache, ctx):
                 r = z3.And(parts, ctx)
             else:
                 r = z3.BoolVal(True, ctx) if e.is_forall() else z3.BoolVal(False, ctx)
-        cache[k] = r
+        cache[k] = (e, r)     # keep e alive: z3 reuses ast ids of freed terms
         return r
     if z3.is_app(e) and e.num_args() > 0:
         args = [_expand_ctx(a, dom, cache, ctx) for a in e.children()]
-        r = e.decl()(*args)
-        cache[k] = r
+        if e.decl().name() == "SUM" and len(args) == 3:
+            # SUM(f, a, b) over the finite carrier: an explicit sum, valid when [a, b) lies inside the carrier (side condition collected)
+            f, a, b = args
+            lo, hi = min(dom), max(dom)
+            terms = [z3.If(z3.And(a <= j, b > j), z3.Select(f, z3.IntVal(j, ctx)), z3.IntVal(0, ctx)) for j in dom]
+            r = z3.Sum(terms) if terms else z3.IntVal(0, ctx)
+            _SIDE.setdefault(id(ctx), []).append(z3.And(a >= lo, b <= hi + 1))
+        else:
+            r = e.decl()(*args)
+        cache[k] = (e, r)     # keep e alive: z3 reuses ast ids of freed terms
         return r
-    cache[k] = e
+    cache[k] = (e, e)
     return e
